@@ -1,6 +1,6 @@
 (* C13 proofs *)
 From Coq Require Import ZArith List Bool Lia.
-From GD Require Import C04.Bytes C04.BytesProofs C13.Recode.
+From GD Require Import C04.Bytes C04.BytesProofs C13.Recode Gen.ChangeLoop.
 Import ListNotations.
 
 Lemma split_chunks_concat {A} ns : forall fuel (l : list A), 1 <= ns -> length l <= fuel ->
@@ -91,20 +91,79 @@ Proof.
   rewrite Nat.div_add_l by lia. reflexivity.
 Qed.
 
-(* open finding: a frame larger than the copy buffer.  With nf = 0 frames per pass the loop copies nothing *)
-Definition change_keeps_whole_frames : Prop :=
-  forall buf size o n (file : list nat), 0 < size -> 0 < o -> 0 < n -> size <= buf ->
-    length (change_file 0 (frames_per_pass buf size o n) o n file) = length file / o * n.
+(* ---- the copy loop over a file of whole frames: pass by pass it produces what one conversion of the whole file gives *)
+Lemma map_seq_from {B} (f : nat -> B) m : forall s, map f (seq s m) = map (fun i => f (s + i)) (seq 0 m).
+Proof.
+  induction m as [|m IH]; intros s; [reflexivity|]. cbn [seq map]. rewrite Nat.add_0_r. f_equal.
+  rewrite (IH (S s)). rewrite <- (seq_shift m 0), map_map. apply map_ext. intros i. f_equal. lia.
+Qed.
 
-Lemma change_keeps_whole_frames_refuted : ~ change_keeps_whole_frames.
+Lemma spf_convert_app {A} (dflt : A) o n k (a b : list A) :
+  0 < o -> 0 < n -> length a = k * o ->
+  spf_convert_chunk dflt o n (a ++ b) = spf_convert_chunk dflt o n a ++ spf_convert_chunk dflt o n b.
+Proof.
+  intros Ho Hn La. unfold spf_convert_chunk. rewrite app_length, La.
+  replace ((k * o + length b) * n) with (k * n * o + length b * n) by lia.
+  rewrite Nat.div_add_l by lia.
+  replace (k * o * n / o) with (k * n) by (replace (k * o * n) with (k * n * o) by lia; now rewrite Nat.div_mul by lia).
+  rewrite seq_app, map_app. cbn [Nat.add]. f_equal.
+  - apply map_ext_in. intros i Hi. apply in_seq in Hi. apply app_nth1. rewrite La.
+    apply Nat.div_lt_upper_bound; [lia|]. nia.
+  - rewrite map_seq_from. apply map_ext. intros i.
+    replace ((k * n + i) * o) with (k * o * n + i * o) by lia. rewrite Nat.div_add_l by lia.
+    rewrite app_nth2 by (rewrite La; lia). f_equal. rewrite La. lia.
+Qed.
+
+Theorem change_loop_whole_frames {A} (dflt : A) per o n nf : 0 < o -> 0 < n -> 0 < nf -> per = nf * o ->
+  forall fuel (file : list A) q, length file = q * o -> length file < fuel ->
+    change_loop dflt fuel per o n file = spf_convert_chunk dflt o n file.
+Proof.
+  intros Ho Hn Hnf ->. induction fuel as [|f IH]; intros file q L Hf; [lia|].
+  cbn [change_loop]. destruct (firstn (nf * o) file) as [|x c] eqn:E.
+  - assert (file = []).
+    { destruct file; [reflexivity|]. assert (Z : nf * o = S (nf * o - 1)) by nia. rewrite Z in E. discriminate E. }
+    subst file. unfold spf_convert_chunk. cbn [length]. rewrite Nat.mul_0_l, Nat.div_0_l by lia. reflexivity.
+  - rewrite <- E. rewrite <- (firstn_skipn (nf * o) file) at 3.
+    assert (Lf : length (firstn (nf * o) file) = Nat.min nf q * o) by (rewrite firstn_length, L; nia).
+    rewrite (spf_convert_app dflt o n (Nat.min nf q) _ _ Ho Hn Lf). f_equal.
+    assert (Pos : 0 < length (firstn (nf * o) file)) by (rewrite E; cbn; lia).
+    apply (IH _ (q - Nat.min nf q)).
+    + rewrite skipn_length, L. rewrite firstn_length, L in Lf. nia.
+    + rewrite skipn_length. rewrite firstn_length in Pos. lia.
+Qed.
+
+(* for every pass size of at least one frame, new sample j of frame q is old sample floor(j*o/n) of frame q *)
+Theorem change_file_matches_spec {A} (dflt : A) nf o n nfr (file : list A) q j :
+  0 < nf -> 0 < o -> 0 < n -> length file = nfr * o -> q < nfr -> j < n ->
+  nth (q * n + j) (change_file dflt nf o n file) dflt = spf_spec_sample dflt o n file q j.
+Proof.
+  intros Hnf Ho Hn L Hq Hj. unfold change_file.
+  rewrite (change_loop_whole_frames dflt (nf * o) o n nf Ho Hn Hnf eq_refl _ file nfr L) by lia.
+  now apply (spf_convert_matches_spec dflt o n nfr).
+Qed.
+
+(* the current code: at least one frame per pass, whatever the buffer, sample size and rates *)
+Lemma frames_per_pass_cur_pos buf size o n : 0 < frames_per_pass_cur buf size o n.
+Proof. unfold frames_per_pass_cur, frames_per_pass_v. change min_one_frame_per_pass with true. cbn iota. lia. Qed.
+
+Theorem change_file_current_matches_spec {A} (dflt : A) buf size o n nfr (file : list A) q j :
+  0 < o -> 0 < n -> length file = nfr * o -> q < nfr -> j < n ->
+  nth (q * n + j) (change_file dflt (frames_per_pass_cur buf size o n) o n file) dflt = spf_spec_sample dflt o n file q j.
+Proof. intros. apply (change_file_matches_spec dflt _ o n nfr); auto. apply frames_per_pass_cur_pos. Qed.
+
+(* history: before 9ccf3f7 a frame larger than the copy buffer gave nf = 0 frames per pass and the loop copied nothing *)
+Definition change_keeps_whole_frames (min_one : bool) : Prop :=
+  forall buf size o n (file : list nat), 0 < size -> 0 < o -> 0 < n -> size <= buf ->
+    length (change_file 0 (frames_per_pass_v min_one buf size o n) o n file) = length file / o * n.
+
+Lemma change_keeps_whole_frames_refuted_before_9ccf3f7 : ~ change_keeps_whole_frames false.
 Proof.
   intros H. specialize (H 64 16 2 5 [1; 2; 3; 4]). vm_compute in H.
   assert (E : 0 = 10) by (apply H; repeat constructor). discriminate E.
 Qed.
 
-(* the same file with the repaired chunk size (proposed_fixes/C13-11.diff: at least one frame per pass) *)
-Example change_big_frame_repaired :
-  change_file 0 (Nat.max 1 (frames_per_pass 64 16 2 5)) 2 5 [1; 2; 3; 4] = [1; 1; 1; 2; 2; 3; 3; 3; 4; 4].
+Example change_big_frame_ok :
+  change_file 0 (frames_per_pass_v true 64 16 2 5) 2 5 [1; 2; 3; 4] = [1; 1; 1; 2; 2; 3; 3; 3; 4; 4].
 Proof. vm_compute. reflexivity. Qed.
 
 Lemma nth_skipn' {A} (d : A) a : forall (l : list A) k, nth k (skipn a l) d = nth (a + k) l d.
